@@ -168,7 +168,7 @@ pub fn run(ctx: &Ctx) -> i32 {
         rep.inconclusive.push(format!("identifier harvest is implausibly small: {:?}", pool));
         return rep.finish();
     }
-    let n = ctx.scale(500, 8000);
+    let n = ctx.scale(1500, 12000);
     let trees = check::draw(ctx.seed, 0xC19, n, 540);
     let mut cases: Vec<(usize, Case)> = Vec::new();
     for (i, t) in trees.iter().enumerate() {
@@ -205,7 +205,7 @@ pub fn run(ctx: &Ctx) -> i32 {
     }
     check::clean_work("C19");
     // ---- E1: #![no_std] library, compile only
-    let n1 = ctx.scale(400, 6000);
+    let n1 = ctx.scale(1000, 8000);
     let trees1 = check::draw(ctx.seed, 0xC191, n1, 520);
     let mut cfg = GenCfg::full();
     cfg.plain_types_only = true;
